@@ -2,6 +2,18 @@
 # Run once after a fresh restore: warms the Go build cache by building the generator, the corpus
 # packages and the harness from files on disk only (offline).
 . "$(dirname "$0")/lib.sh"
+# known_findings.txt is never written by a check; a malformed line would silently drop an entry
+python3 - "$VERIF/known_findings.txt" <<'PY' || die "known_findings.txt is malformed"
+import re, sys
+bad = 0
+for n, l in enumerate(open(sys.argv[1]), 1):
+    l = l.rstrip("\n")
+    if not l.strip() or l.startswith("#"):
+        continue
+    if not re.match(r"(known: property=C\d\d (sig|sigre)=\S.* :: \S|fixed: property=C\d\d [0-9a-f]{7,40} \S)", l) or re.search(r".(known|fixed): property=C\d\d ", l[1:]):
+        print("known_findings.txt:%d: malformed line: %s" % (n, l[:120])); bad += 1
+sys.exit(1 if bad else 0)
+PY
 mkwork setup
 gen_corpus
 build_vchk
